@@ -1,10 +1,66 @@
 import StrumModel.Protocol
 import StrumModel.Overlap
+import StrumModel.Display
 /-
 Dispatch of `op` lines to the model. One answer line per op.
 -/
 namespace Strum.Protocol
 open Strum
+
+def showNameErr : NameErr → String
+  | .transparentShape => "CE:transparentShape"
+  | .defaultShape => "CE:defaultShape"
+  | .capture _ => "CE:capture"
+  | .badIdent => "CE:badIdent"
+  | .emptyPlaceholder => "CE:emptyPlaceholder"
+  | .unitPlaceholder => "CE:unitPlaceholder"
+
+def showShowOut : ShowOut → String
+  | .text b => encodeStr b
+  | .interp _ _ => "INTERP"
+  | .panic => "PANIC"
+
+def deriveOfKey (k : String) : Option NameDerive :=
+  match k with
+  | "display" => some .display
+  | "to_string" => some .display
+  | "tostring" => some .toStringDeprecated
+  | "asref" => some .asRef
+  | "asstatic" => some .asStatic
+  | "intoref" => some .intoStaticRef
+  | "intostr" => some .intoStr
+  | "into" => some .intoStatic
+  | _ => none
+
+def decodeSpec (s : String) : Option FmtSpec :=
+  match (s.splitOn ",").map String.toInt? with
+  | [some f, some a, some w, some p, some z] =>
+    let fill : Bytes := if f = 1 then [42] else if f = 2 then [195, 169] else [32]
+    let align := if a = 1 then some Align.left else if a = 2 then some Align.center else if a = 3 then some Align.right else none
+    some { fill := fill, align := align, width := if w < 0 then none else some w.toNat,
+           prec := if p < 0 then none else some p.toNat, zero := z != 0 }
+  | _ => none
+
+def nameOut (d : EnumDef) (dv : NameDerive) (v : Variant) (inner : Bytes) : Except NameErr ShowOut :=
+  match dv with
+  | .display => displayOut d v (fun sp => pad sp inner) {}
+  | _ => strOut d dv v inner
+
+def findVariant (d : EnumDef) (k : String) : Option Variant :=
+  match decodeStr k with
+  | none => none
+  | some k => d.variants.find? (fun v => v.ident == k)
+
+def showParseBack (d : EnumDef) (o : Except NameErr ShowOut) : String :=
+  match o with
+  | .error e => showNameErr e
+  | .ok (.text b) =>
+    match parse d b with
+    | .error e => showGenErr e
+    | .ok (.ok k p) => String.intercalate ":" (["ok", encodeStr k] ++ p.map showFieldInit)
+    | .ok _ => "err"
+  | .ok .panic => "PANIC"
+  | .ok (.interp _ _) => "INTERP"
 
 def runOp (d : EnumDef) (args : List String) : String :=
   match args with
@@ -17,6 +73,70 @@ def runOp (d : EnumDef) (args : List String) : String :=
       | .ok out =>
         if d.customErr then showParseOut out ++ " calls=" ++ toString out.callLog.length
         else showParseOut out
+  | ["names", k, _alt, inner, keys] =>
+    match findVariant d k, decodeStr inner with
+    | some v, some inner =>
+      String.intercalate " " ((keys.splitOn ",").map (fun key =>
+        match deriveOfKey key with
+        | none => key ++ "=?"
+        | some dv =>
+          match nameOut d dv v inner with
+          | .error e => key ++ "=" ++ showNameErr e
+          | .ok o => key ++ "=" ++ showShowOut o))
+    | _, _ => "bad-op"
+  | ["show", k, _alt, inner, spec] =>
+    match findVariant d k, decodeStr inner, decodeSpec spec with
+    | some v, some inner, some sp =>
+      match displayOut d v (fun sp => pad sp inner) sp with
+      | .error e => showNameErr e
+      | .ok o => showShowOut o
+    | _, _, _ => "bad-op"
+  | ["fwd", k, _alt, _inner, _spec] =>
+    match findVariant d k with
+    | some v =>
+      match (genNames d .display).map (fun arms => lookupArm arms v.ident) with
+      | .error e => showNameErr e
+      | .ok (some .forward) => "fwd-ok"
+      | .ok _ => "not-forwarding"
+    | none => "bad-op"
+  | ["reparse", s] =>
+    match decodeStr s with
+    | none => "bad-op"
+    | some b =>
+      match parse d b with
+      | .error e => showGenErr e
+      | .ok (.ok k p) =>
+        match d.variants.find? (fun v => v.ident == k) with
+        | none => "bad-model"
+        | some v =>
+          let inner : Bytes := match p with | [.captured c] => c | _ => []
+          match displayOut d v (fun sp => pad sp inner) {} with
+          | .error e => showNameErr e
+          | .ok o => "ok " ++ encodeStr k ++ " " ++ showShowOut o
+      | .ok _ => "err"
+  | ["variants"] =>
+    let vs := variantNames d
+    String.intercalate " " (("n=" ++ toString vs.length) :: vs.map encodeStr)
+  | ["roundtrip", k, keys] =>
+    match findVariant d k with
+    | some v =>
+      String.intercalate " " ((keys.splitOn ",").map (fun key =>
+        if key.startsWith "ser" then
+          match (key.drop 3).toString.toNat? with
+          | some i =>
+            match (serializations d.style v)[i]? with
+            | some sp => key ++ "=" ++ showParseBack d (.ok (.text sp))
+            | none => key ++ "=?"
+          | none => key ++ "=?"
+        else
+          match deriveOfKey key with
+          | none => key ++ "=?"
+          | some dv => key ++ "=" ++ showParseBack d (nameOut d dv v [])))
+    | none => "bad-op"
+  | ["canonical", k] =>
+    match findVariant d k with
+    | some v => encodeStr (preferredName d.style d.pfx v)
+    | none => "bad-op"
   | ["nooverlap"] => if noOverlapB d then "1" else "0"
   | ["spellings", k] =>
     match decodeStr k with
